@@ -526,8 +526,10 @@ def generate(tier, rng):
         for op, sym in BINOPS:
             if not accepts(op, k):
                 continue
-            for _ in range(nsp):
-                ca, cb = rng.choice(COMPAT)
+            # the order comparisons are where NaN matters (an ordered comparison with NaN is false, so a kernel that
+            # computes `a <= b` as `!(a > b)` is wrong exactly there): every broadcast class pair gets special values
+            pairs = list(COMPAT) if op in ("lt", "le", "gt", "ge", "eq", "ne") else [rng.choice(COMPAT) for _ in range(nsp)]
+            for ca, cb in pairs:
                 emit(special_case(op, sym, k, ca, cb, rng))
         for _ in range(nsp):
             emit(special_case("neg", "-", k, rng.choice(CLASSES), "S", rng, unary=True))
